@@ -23,12 +23,13 @@ def run(ctx):
     # several datagrams read by one processing call
     batch = {"module": "GenBatch.tla", "cfg": "GenBatch.cfg", "name": "batch"}
     # back-off arithmetic: dozens of passes over the server list (more than the width of the type the doubling uses)
+    tcpfail = {"module": "GenTcpFail.tla", "cfg": "GenTcpFail.cfg", "name": "tcpfail"}   # write failures on TCP connections
     backoff = {"module": "GenBackoff.tla", "cfg": "GenBackoff.cfg", "name": "backoff"}
     if ctx.quick:
-        gens = [{"module": "Gen_C07.tla", "cfg": "Gen_C07_quick.cfg", "name": "bfs"}, lat, deep, batch, backoff]
+        gens = [{"module": "Gen_C07.tla", "cfg": "Gen_C07_quick.cfg", "name": "bfs"}, lat, deep, batch, backoff, tcpfail]
     else:
         gens = [{"module": "Gen_C07.tla", "cfg": "Gen_C07_thorough.cfg", "name": "bfs"},
-                {"module": "Gen_C07.tla", "cfg": "Gen_C07_sim.cfg", "name": "sim", "simulate": 2000, "depth": 14}, lat, deep, batch, backoff]
+                {"module": "Gen_C07.tla", "cfg": "Gen_C07_sim.cfg", "name": "sim", "simulate": 2000, "depth": 14}, lat, deep, batch, backoff, tcpfail]
     simlib.engine_check(ctx, gens, FACETS, labels=LABELS, selftests=mutators.RETRY)
     extra(ctx)
 
